@@ -6,7 +6,7 @@ from pyvc.engine import Contract, OpaqueClass
 from pyvc.loops import LoopSpec
 from pyvc import models as M
 from pyvc.classes import cls_of, issub
-from pyvc.state import RaiseSig
+from pyvc.state import RaiseSig, Unsupported
 from pyvc.interp import is_callable, truthy
 from specs.sig import *   # noqa
 from contracts.sinter import TFunc
@@ -140,9 +140,20 @@ def register_dispatch(E):
     E.add_opaque(OpaqueClass('Response', dotted='werkzeug.wrappers.response.Response', truthy=True))
 
     # ---- callee summaries -----------------------------------------------------------------
+    RESERVED = Z.empty_set(Z.Str)
+    for nm in E.refl['modules']['clastic.route']['consts'].get('RESERVED_ARGS', {'v': []})['v']:
+        RESERVED = z3.SetAdd(RESERVED, z3.StringVal(nm['v']))
+    RESERVED = z3.SetAdd(z3.SetAdd(RESERVED, z3.StringVal('_route')), z3.StringVal('_error'))
+
+    def pp_dom(route_z, path_z):
+        # well-formedness of a bound route (established at bind time: check_middlewares rejects a URL
+        # binding named like a built-in -- C04 -- and match_path returns exactly the converter names -- C05)
+        return z3.SetDifference(PPDOM(route_z, path_z), RESERVED)
+    E.pp_dom = pp_dom
+
     def match_path_model(I, ctx, route, path):
         m = MATCH(route.z, path.z)
-        return VOpt(Z.Not(m), VMap(PPDOM(route.z, path.z), PPARR(route.z, path.z), TStr, TObj()))
+        return VOpt(Z.Not(m), VMap(pp_dom(route.z, path.z), PPARR(route.z, path.z), TStr, TObj()))
 
     E.add_contract(Contract('clastic.route.BoundRoute.match_path', trusted=True, model=match_path_model,
                             note='call-site summary: None iff the route does not match, else the dict of converted '
@@ -233,7 +244,7 @@ def register_dispatch(E):
                 d = M.dict_sym(I, ctx, star)
                 ds = ctx.unbox_ref(Z.simp(z3.Select(d[1], z3.StringVal('_dispatch_state'))))
             if ds is None:
-                raise Exception('execute model: dispatch state not found in params')
+                raise Unsupported('the keyword mapping handed to the catch-all route does not visibly carry this request\'s dispatch state')
             h = ctx.heap[ds.rid]
             excs = I._as_seq(ctx, h.fields['exceptions'], TObj())
             am = I._as_set(ctx, h.fields['allowed_methods'])
@@ -489,6 +500,45 @@ def register_dispatch_contract(E):
         raises={'builtins.Exception': None},
         raises_local={'builtins.Exception': 'isinstance_of(_exc, "%s") or RERAISE(self.error_handler)' % RR},
         heavy=True, prop=['C06', 'C07', 'C08', 'C12']))
+
+    # ---- C02: what dispatch hands to the route it executes ------------------------------------
+    @E.spec('PATH_PARAMS')
+    def PATH_PARAMS(I, ctx, r, path):
+        """the converted bindings match_path returned for this route and path"""
+        return VMap(E.pp_dom(r.z, path.z), PPARR(r.z, path.z), TStr, TObj())
+
+    PP = 'PATH_PARAMS(route, url_path)'
+    SRC = ('(%s[k] if k in %s else (request if k == "request" else (self if k == "_application" else '
+           '(dispatch_state if k == "_dispatch_state" else self.resources[k]))))' % (PP, PP))
+    ERRKW = ['"_error" in _kw and _kw["_error"] is ret',
+             'forall_keys(_kw, lambda k, v: k == "_error" or (k in params and v is params[k]))',
+             'forall_keys(params, lambda k, v: k in _kw)']
+    at_call = {
+        'clastic.route.BoundRoute.execute': [
+            '_callee_self is route and len(_args) == 0',
+            'url_path == request.path and MATCHES(route, url_path)',
+            'keys(_kw) == keys(%s) | keys(self.resources) | set(["request", "_application", "_dispatch_state"])' % PP,
+            # (a name bound by the URL *and* registered as a resource is rejected at bind time -- C04 --
+            # so no precedence between those two is claimed)
+            'forall_keys(_kw, lambda k, v: implies(not (k in %s and k in self.resources), v is %s))' % (PP, SRC)],
+        'EH.uncaught_to_response': [
+            '"_route" in _kw and _kw["_route"] is route', '"_error" in _kw and _kw["_error"] is exc',
+            'forall_keys(_kw, lambda k, v: k == "_error" or k == "_route" or (k in params and v is params[k]))',
+            'forall_keys(params, lambda k, v: k in _kw)'],
+        'clastic.route.BoundRoute.execute_error': ['len(_args) == 0'] + ERRKW,
+        'clastic.application.default_render_error': ['len(_args) == 0'] + ERRKW,
+    }
+    E.add_contract(Contract(
+        'clastic.application.Application.dispatch',
+        params={'self': TInst('clastic.application.Application', E.app_fields), 'request': TObj('Request')},
+        setup=setup, requires=wf,
+        inline=['clastic.route.BoundRoute.match_method'],
+        loops={('route', 'self.routes + [self._null_route]'): loop},
+        ensures=[], at_call=at_call,
+        raises={'builtins.Exception': None},
+        heavy=True, prop=['C02'],
+        note='the same loop contract as for C06-C08 (support); the C02 clauses are the at-call obligations'),
+        key='clastic.application.Application.dispatch#C02')
 
 
 # ---- C06/C07: classification of one route for one request, and the folds ---------------------
